@@ -23,6 +23,21 @@ def run(rep, tier, build, replay=None):
             # WN-LMF 1.0 with entry-level frames shared between entries
             lx = gendoc.gen_lexicon(rng, 'old', '1', 'en', ['i1', 'i2'], '1.0', size=5)
             cases.append({'resources': [('old:1', {'lmf_version': '1.0', 'lexicons': [lx]})], 'orphan_extension': None})
+        elif i % 5 == 3:
+            # a base lexicon followed by an extension of it (with and without url on <Extends>), through the routes that
+            # keep the order
+            ub = gendoc.gen_universe(rng, size=2, force={'ext'})
+            xs = [(nm, r) for nm, r in ub if r['lexicons'][0].get('extends')]
+            if xs:
+                xn, xr = xs[0]
+                bid = '%s:%s' % (xr['lexicons'][0]['extends']['id'], xr['lexicons'][0]['extends']['version'])
+                bs = [(nm, r) for nm, r in ub if nm == bid and not r['lexicons'][0].get('requires')]
+                if bs and not xr['lexicons'][0].get('requires'):
+                    if i % 10 == 3:
+                        xr['lexicons'][0]['extends'].pop('url', None)      # <Extends> without url: a default is filled in on insert
+                    cases.append({'resources': [bs[0], (xn, xr)], 'sequential': True, 'orphan_extension': None})
+                    continue
+            cases.append({'resources': [rng.choice(plain)], 'orphan_extension': ext[0][1] if ext else None})
         elif i % 3 == 2 and len(plain) > 1:
             # mutually independent packages (no dependencies between them matter for storage)
             indep = [(nm, r) for nm, r in plain if not r['lexicons'][0].get('requires')][:3]
